@@ -159,3 +159,135 @@ def inline_new_functions(F, baseline=None):
             F.by_crate[b['crate']] = [x for x in F.by_crate[b['crate']] if x is not b]
             # nested closures of the removed helper stay: they are referenced from the inlined aggregate statements
     return report
+
+
+# ---------------------------------------------------------------------------------------------------
+# second view: Option / Result combinators with a closure argument written out as the match they stand for
+#
+#   r.map(f)            Ok(v) => Ok(f(v)),  Err(e) => Err(e)          o.map(f)            Some(v) => Some(f(v)), None => None
+#   r.map_err(f)        Ok(v) => Ok(v),     Err(e) => Err(f(e))       o.and_then(f)       Some(v) => f(v),       None => None
+#   r.and_then(f)       Ok(v) => f(v),      Err(e) => Err(e)          o.unwrap_or_else(f) Some(v) => v,          None => f()
+#   r.or_else(f)        Ok(v) => Ok(v),     Err(e) => f(e)            o.ok_or_else(f)     Some(v) => Ok(v),      None => Err(f())
+#   r.unwrap_or_else(f) Ok(v) => v,         Err(e) => f(e)
+#
+# The closure's MIR is inlined where it is applied.  The plain view stays the primary one; a property whose rules do
+# not all pass on the plain view is evaluated again on this view, and the better verdict counts: both are faithful
+# representations of the same program, and every rule fails closed on what it cannot find.
+RES, OPT = 'core::result::Result', 'core::option::Option'
+# callee -> (enum, variant that is transformed, how): how in wrap(same variant) | flat | unwrap ; the other variant: keep | payload | wrap_err
+COMB = {
+    RES + '::map': (RES, 'Ok', 'wrap', 'keep'), RES + '::map_err': (RES, 'Err', 'wrap', 'keep'), RES + '::and_then': (RES, 'Ok', 'flat', 'keep'),
+    RES + '::or_else': (RES, 'Err', 'flat', 'keep'), RES + '::unwrap_or_else': (RES, 'Err', 'flat', 'payload'),
+    OPT + '::map': (OPT, 'Some', 'wrap', 'keep'), OPT + '::and_then': (OPT, 'Some', 'flat', 'keep'),
+    OPT + '::unwrap_or_else': (OPT, 'None', 'flat', 'payload'), OPT + '::ok_or_else': (OPT, 'None', 'wrap_err', 'wrap_ok'),
+}
+VAR = {RES: {'Ok': 0, 'Err': 1}, OPT: {'None': 0, 'Some': 1}}
+HAS_PAYLOAD = {'Ok': True, 'Err': True, 'Some': True, 'None': False}
+
+
+def _closure_of(body, operand):
+    """(closure path, local holding the closure value) if the operand is a local whose only definition is a closure aggregate"""
+    pl = operand.get('mv') or operand.get('cp')
+    if pl is None or 'p' in pl:
+        return None
+    l = pl['l']
+    found = None
+    for blk in body['blocks']:
+        for s in blk['s']:
+            d = s.get('d')
+            if d and d.get('l') == l and 'p' not in d:
+                r = s.get('r')
+                if found is not None or not r:
+                    return None
+                if r['k'] == 'agg' and r.get('ak') == 'closure':
+                    found = (r['def'], l)
+                elif r['k'] == 'use' and ('mv' in r['a'] or 'cp' in r['a']):
+                    inner = _closure_of(body, r['a'])
+                    if inner is None:
+                        return None
+                    found = inner
+                else:
+                    return None
+        t = blk['t']
+        if t['k'] == 'call' and t['d'].get('l') == l and 'p' not in t['d']:
+            return None
+    return found
+
+
+def _agg(adt, var, ops):
+    return {'k': 'agg', 'ak': 'adt', 'adt': adt, 'var': var, 'dv': VAR[adt][var], 'fn': ['0'] if ops else [], 'ops': ops}
+
+
+def desugar_combinators(F):
+    n = 0
+    for p, b in list(F.bodies.items()):
+        if '::tests::' in p or b['crate'].startswith('bin:'):
+            continue
+        for bi in range(len(b['blocks'])):
+            blk = b['blocks'][bi]
+            t = blk['t']
+            if t['k'] != 'call' or blk.get('cl') or len(t['args']) != 2:
+                continue
+            spec = COMB.get(strip_generics(t.get('fn') or ''))
+            if spec is None or t.get('t') is None:
+                continue
+            clo = _closure_of(b, t['args'][1])
+            cb = F.bodies.get(clo[0]) if clo else None
+            if cb is None or cb.get('coroutine') or len(cb['blocks']) > MAX_BLOCKS:
+                continue
+            enum, var, how, other = spec
+            takes_arg = HAS_PAYLOAD[var]
+            if cb['argc'] != (2 if takes_arg else 1):
+                continue
+            ln = t.get('ln', 0)
+            recv = t['args'][0]
+            rpl = recv.get('mv') or recv.get('cp')
+            if rpl is None:
+                continue
+            L = len(b['locals'])
+            # new locals: receiver copy, discriminant, payload of the transformed variant, closure result, payload of the other variant
+            for ty in ('<receiver>', 'isize', '<payload>', '<closure result>', '<other payload>'):
+                b['locals'].append({'ty': ty})
+            R, D, V, C, O = L, L + 1, L + 2, L + 3, L + 4
+            blk['s'].append({'d': {'l': R}, 'r': {'k': 'use', 'a': recv}, 'ln': ln})
+            blk['s'].append({'d': {'l': D}, 'r': {'k': 'discr', 'p': {'l': R}, 'pty': enum + '<..>'}, 'ln': ln})
+            B = len(b['blocks'])
+            cont, unwind, dest = t['t'], t.get('u'), t['d']
+            vi_t, vi_o = VAR[enum][var], 1 - VAR[enum][var]
+            ovar = [k for k, v in VAR[enum].items() if v == vi_o][0]
+            # block B: transformed variant: bind payload, run the closure (as a call so that _inline_site can expand it)
+            stm = []
+            if takes_arg:
+                stm.append({'d': {'l': V}, 'r': {'k': 'use', 'a': {'mv': {'l': R, 'p': [{'dc': var, 'vi': vi_t}, {'f': 0, 'n': '0', 'o': enum}]}}}, 'ln': ln})
+            env_ref = cb['locals'][1]['ty'].startswith('&')
+            E = len(b['locals'])
+            b['locals'].append({'ty': cb['locals'][1]['ty']})
+            stm.append({'d': {'l': E}, 'r': ({'k': 'ref', 'm': cb['locals'][1]['ty'].startswith('&mut'), 'p': {'l': clo[1]}} if env_ref else {'k': 'use', 'a': {'mv': {'l': clo[1]}}}), 'ln': ln})
+            args = [{'mv': {'l': E}}] + ([{'mv': {'l': V}}] if takes_arg else [])
+            b['blocks'].append({'s': stm, 't': {'k': 'call', 'fn': clo[0], 'args': args, 'd': {'l': C}, 't': B + 1, 'u': unwind, 'ln': ln, 'ik': 'item'}})
+            # block B+1: wrap the closure result
+            if how == 'wrap':
+                rv = _agg(enum, var, [{'mv': {'l': C}}])
+            elif how == 'wrap_err':
+                rv = _agg(RES, 'Err', [{'mv': {'l': C}}])
+            else:
+                rv = {'k': 'use', 'a': {'mv': {'l': C}}}
+            b['blocks'].append({'s': [{'d': dest, 'r': rv, 'ln': ln}], 't': {'k': 'goto', 't': cont, 'ln': ln}})
+            # block B+2: the other variant
+            stm = []
+            if HAS_PAYLOAD[ovar]:
+                stm.append({'d': {'l': O}, 'r': {'k': 'use', 'a': {'mv': {'l': R, 'p': [{'dc': ovar, 'vi': vi_o}, {'f': 0, 'n': '0', 'o': enum}]}}}, 'ln': ln})
+            if other == 'keep':
+                rv = _agg(enum, ovar, [{'mv': {'l': O}}] if HAS_PAYLOAD[ovar] else [])
+            elif other == 'wrap_ok':
+                rv = _agg(RES, 'Ok', [{'mv': {'l': O}}])
+            else:
+                rv = {'k': 'use', 'a': {'mv': {'l': O}}}
+            stm.append({'d': dest, 'r': rv, 'ln': ln})
+            b['blocks'].append({'s': stm, 't': {'k': 'goto', 't': cont, 'ln': ln}})
+            blk['t'] = {'k': 'switch', 'd': {'mv': {'l': D}}, 'dty': 'isize', 'ts': [[vi_t, B]], 'o': B + 2, 'ln': ln}
+            # expand the closure call
+            if not _inline_site(b, B, cb):
+                raise RuntimeError('cannot inline closure %s' % clo[0])
+            n += 1
+    return n
